@@ -16,6 +16,7 @@ import RaftVerif.Properties.C06
 import RaftVerif.Properties.C08
 import RaftVerif.Proofs.LeaderSpecs
 import RaftVerif.Model.Lifecycle
+import RaftVerif.Model.Snapshot
 import RaftVerif.Properties.C15
 set_option linter.unusedSimpArgs false
 set_option linter.unusedVariables false
@@ -193,6 +194,29 @@ theorem C14_start_wf (n : Node) (now : Nat) (rf st : Bool) (d : Node.Disk) (hs :
     rw [hsn] at hb
     exact ⟨by simp only; rw [hrd.2.2]; exact hw, by simp only; rw [hrd.2.2, hk.2.2.1]; exact hb,
            by simp only; rw [hk.1, hk.2.2.1]; exact Nat.le_refl _, by simp only; rw [hk.1, hk.2.1]; exact Nat.le_refl _⟩
+
+/-- **A local snapshot that was overtaken by an installed one is never published** (fix S10): if the
+    node's boundary has reached the label while `fsm.Snapshot` ran, `takeSnapshot` changes nothing and
+    discards the file — so the newest visible snapshot is never older than what the log was discarded
+    for, and `restore()` finds the entries right after the snapshot it loads. -/
+theorem C14_overtaken_snapshot_not_published (n : Node) (l : Node.SnapLabel) (content : List Nat) (h : l.index ≤ n.snapIndex) :
+    n.snapshotEnd l content = (n, [.snapDiscard]) := by
+  unfold Node.snapshotEnd
+  rw [if_pos h]
+
+/-- … and a published local snapshot moves the boundary to exactly its label. -/
+theorem C14_published_snapshot_is_boundary (n : Node) (l : Node.SnapLabel) (content : List Nat) (h : ¬ l.index ≤ n.snapIndex)
+    (hnf : Effect.fatal ∉ (n.snapshotEnd l content).2) :
+    (n.snapshotEnd l content).1.snapIndex = l.index ∧
+    (n.snapshotEnd l content).1.snaps = n.snaps ++ [{ index := l.index, term := l.term, data := content }] := by
+  unfold Node.snapshotEnd at hnf ⊢
+  rw [if_neg h] at hnf ⊢
+  simp only at hnf ⊢
+  split
+  · simp [Node.resetSnapshots]
+  · rename_i hc
+    rw [hc] at hnf
+    simp at hnf
 
 /-! ### Cluster level: a crash at any point, then restart and rejoin
 
